@@ -47,6 +47,25 @@ class SuiteTransformer(NodeVisitor):
     def __call__(self, node):
         return self.visit(node)
 
+    def becomes_docstring(self, original_suite, remaining_suite, parent):
+        """
+        Would removing statements from a suite turn a string expression statement into the docstring of its parent
+        """
+
+        if not isinstance(parent, (ast.Module, ast.ClassDef, ast.FunctionDef, ast.AsyncFunctionDef)):
+            return False
+
+        if len(remaining_suite) == 0 or remaining_suite[0] is original_suite[0]:
+            return False
+
+        first = remaining_suite[0]
+        if not isinstance(first, ast.Expr):
+            return False
+
+        if isinstance(first.value, ast.Constant):
+            return isinstance(first.value.value, str)
+        return isinstance(first.value, ast.Str)
+
     def visit_ClassDef(self, node):
         node.bases = [self.visit(b) for b in node.bases]
 
